@@ -181,9 +181,15 @@ def run(ctx: Ctx) -> None:
         a, b = "01:123456", "13:654321"
         code = "".join(rng.choice(HEX) for _ in range(4))
         payload = "".join(rng.choice(HEX) for _ in range(rng.randrange(2, 50, 2)))
-        form = rng.randrange(5)
+        form = rng.randrange(7)
         seq = rng.choice(["", "000", f"{rng.randint(0, 255):03d}"])
-        parts = {0: [a], 1: [a, b], 2: [a, a], 3: [a, "--:------", b], 4: [a, b, "--:------"]}[form]
+        if rng.random() < 0.5:      # any two devices
+            a, b = (f"{rng.randrange(64):02d}:{rng.randrange(1, 262143):06d}" for _ in range(2))
+        parts = {0: [a], 1: [a, b], 2: [a, a], 3: [a, "--:------", b], 4: [a, b, "--:------"], 5: ["--:------", "--:------", a], 6: [a, "--:------", a]}[form]
+        # the address fields of the frame built: a triple given in full is kept as it is; the short forms are completed as documented
+        triple = {0: None if verb.strip() == "I" else ("18:000730", a, "--:------"), 1: (a, b, "--:------"), 2: (a, "--:------", a)}.get(form, tuple(parts))
+        if a == b and form in (1, 3, 4):
+            triple = None
         cli = " ".join([verb.strip(), seq, *parts, code, payload]).replace("  ", " ")
         try:
             c = Command.from_cli(cli)
@@ -196,6 +202,8 @@ def run(ctx: Ctx) -> None:
             ctx.violation("cli-form-alters", "from_cli does not preserve verb/seqn/code/payload", {"cli": cli, "frame": str(c)})
         if int(c.len_) * 2 != len(c.payload):
             ctx.violation("length-field-wrong", "from_cli built a wrong length field", {"cli": cli, "frame": str(c)})
+        if triple is not None and tuple(str(c).split()[2:5]) != triple:
+            ctx.violation("cli-form-alters-addresses", "from_cli built a frame whose three address fields are not the ones given", {"cli": cli, "frame": str(c), "expected_addresses": list(triple)})
 
     if built:
         res = common.coq_eval("C02", files, timeout=900)
